@@ -1277,7 +1277,8 @@ def run(ck):
         ljobs = []
         lhs = {n: f for n, f in hs.items() if n not in ("clearsol-sealed", "multigoal", "multigoal-blocks", "free-exact", "free-exact-dyadic", "ptc-kinds")}
         for planner in LOCKSTEP_CORE:
-            lseeds = [seeds[planner], r.below(1000)] if quick else [seeds[planner]] + [r.below(1000) for _ in range(2)]
+            # thorough: three harness seeds for the two cores of the earlier rounds, two for the round-10 cores (RRTi, RRTConnect)
+            lseeds = [seeds[planner], r.below(1000)] if quick else [seeds[planner]] + [r.below(1000) for _ in range(2 if planner in ("RRT", "cRRTi") else 1)]
             for s in lseeds:
                 kk = probe_first_solution(rn, planner, s)[0] or 200
                 kk = min(kk, 400)
@@ -1378,7 +1379,11 @@ MANIFEST = {
             "(exact_solution_reaches_goal); solve_evaluations_bounded (at most k+1 evaluations, exactly k+1 on TIMEOUT / "
             "APPROXIMATE), resume_continues_search (the tree a resumed solve found is a prefix of the tree it returns) and "
             "tree_core_paths_start_at_start / never-dangling lastGoalMotion_ for all three tree cores. "
-            "The models are tied to geometric::RRT (both intermediate-state modes), control::RRT(intermediate states) and "
+            "Second lap: clear_forgets_every_history / new_query_after_clear_is_first_query (after clear() every later history is "
+            "observed as on a fresh planner: a bisimulation on core, lastGoalMotion_, input-state counters, problem definition), "
+            "resume_monotone_history; fifth core geometric::RRTConnect (two trees, startTree_, connect loop, connectionPoint_) with "
+            "rrtConnect_core_lawful, rrtConnect_instances, resume_continues_search_bidirectional, lock-stepped. "
+            "The models are tied to geometric::RRT (both intermediate-state modes), geometric::RRTConnect, control::RRT(intermediate states) and "
             "PRM/PRMstar by lock-step runs "
             "(per-iteration oracle answers taken from the real run's trace; milestone counts for PRM). All other planners "
             "are exploration-backed only: 41 geometric planners + variants (RRT/RRTConnect with intermediate states, BIT*/ABIT* "
